@@ -25,7 +25,7 @@ def _run_chunk(args):
     import importlib
     mod = importlib.import_module(modname)
     handler = getattr(mod, fname)
-    problems, stats, samples = [], collections.Counter(), []
+    problems, stats, samples, artifacts = [], collections.Counter(), [], []
     for txt in texts:
         try:
             st = tlc.parse_state(txt)
@@ -48,14 +48,16 @@ def _run_chunk(args):
         stats.update(rs)
         if r.get("sample") is not None and len(samples) < 2:
             samples.append(r["sample"])
-    return problems, dict(stats), samples
+        if r.get("artifacts"):
+            artifacts.extend(r["artifacts"])
+    return problems, dict(stats), samples, artifacts
 
 
 def replay_dump(dumpfile, handler_path, opts=None, nproc=16, chunk=200, texts=None):
     if texts is None:
         texts = tlc.split_dump(dumpfile)
     chunks = [texts[i:i + chunk] for i in range(0, len(texts), chunk)]
-    problems, stats, samples = [], collections.Counter(), []
+    problems, stats, samples, artifacts = [], collections.Counter(), [], []
     t0 = time.time()
     if nproc <= 1:
         _init_worker()
@@ -64,7 +66,8 @@ def replay_dump(dumpfile, handler_path, opts=None, nproc=16, chunk=200, texts=No
         ctx = mp.get_context("fork")
         pool = ctx.Pool(nproc, initializer=_init_worker)
         results = pool.imap_unordered(_run_chunk, [(handler_path, c, opts or {}) for c in chunks])
-    for p, s, sm in results:
+    for p, s, sm, art in results:
+        artifacts.extend(art)
         problems.extend(p)
         for k in list(s):
             if k.endswith("_max"):          # maxima are merged by max, counters by sum
@@ -75,5 +78,5 @@ def replay_dump(dumpfile, handler_path, opts=None, nproc=16, chunk=200, texts=No
     if nproc > 1:
         pool.close()
         pool.join()
-    return {"problems": problems, "stats": dict(stats), "samples": samples[:6], "n_states": len(texts),
+    return {"problems": problems, "stats": dict(stats), "samples": samples[:6], "n_states": len(texts), "artifacts": artifacts,
             "wall_s": round(time.time() - t0, 2)}
